@@ -95,6 +95,8 @@ structure RfSpec where
   nameKey : Option String
   calls : List String
   pre : Bool
+  /-- the kind whose plural the (single) evaluation has to discover first: API request "LOOKUP kind" -/
+  lookup : Option String := none
 
 structure FnSpec where
   cls : String
@@ -107,6 +109,8 @@ structure FnSpec where
   showRes : Bool := false
   /-- the Koreo resource name when it is not the id (what `resourceFunction` in a resource id says) -/
   kname : Option String := none
+  /-- further members of the Ok value (values without a JSON counterpart travel as tagged one-key maps) -/
+  extra : List (String × JVal) := []
 
 def toFnSpec (j : J) : Except String FnSpec := do
   let rf ← match optField j "rf" with
@@ -114,17 +118,22 @@ def toFnSpec (j : J) : Except String FnSpec := do
     | some r => do
       let calls ← (← r.getArr "calls").mapM fun c => match c with | .str s => pure s | _ => throw "bad call"
       pure (some { pfx := ← r.getStr "prefix", nameKey := (r.getD "nameKey").str?, calls,
-                   pre := ((r.getD "pre").bool?).getD false : RfSpec })
+                   pre := ((r.getD "pre").bool?).getD false, lookup := (r.getD "lookup").str? : RfSpec })
   pure { cls := ← j.getStr "c", delay := ((j.get? "d").bind J.int?).getD 0, byKey := (j.getD "by").str?, rf,
          noret := ((j.getD "noret").bool?).getD false, showRes := ((j.getD "res").bool?).getD false,
-         kname := (j.getD "kname").str? }
+         kname := (j.getD "kname").str?,
+         extra := ← match j.get? "extra" with
+           | some (.arr kvs) => kvs.mapM fun kv => match kv with
+             | .arr [.str k, v] => do pure (k, ← toJVal v)
+             | _ => throw "bad extra entry"
+           | _ => pure [] }
 
-def resOf (cls : String) (d : Int) (id : String) (inputs : JVal) (noret : Bool := false) (showRes : Bool := false) :
-    StepRes :=
+def resOf (cls : String) (d : Int) (id : String) (inputs : JVal) (noret : Bool := false) (showRes : Bool := false)
+    (extra : List (String × JVal) := []) : StepRes :=
   match cls with
   | "ok" =>
     if noret then .ok .null
-    else .ok (.obj ([("site", .str id), ("got", inputs)] ++ (if showRes then [("res", .str id)] else [])))
+    else .ok (.obj ([("site", .str id), ("got", inputs)] ++ (if showRes then [("res", .str id)] else []) ++ extra))
   | "skip" => .skip
   | "depSkip" => .depSkip
   | "retry" => .retry d
@@ -146,7 +155,7 @@ def runOf (fns : List (String × FnSpec)) : RunFn := fun t inputs =>
       let cls := match f.byKey with
         | none => f.cls
         | some k => match inputKey inputs k with | some (.str s) => s | _ => "permFail"
-      let res := resOf cls f.delay id inputs f.noret (f.showRes && f.rf.isSome)
+      let res := resOf cls f.delay id inputs f.noret (f.showRes && f.rf.isSome) f.extra
       match f.rf with
       | none => ⟨res, .null, []⟩
       | some rf =>
@@ -160,7 +169,8 @@ def runOf (fns : List (String × FnSpec)) : RunFn := fun t inputs =>
           match name? with
           | none => ⟨.permFail, .null, []⟩
           | some name =>
-            ⟨res, .obj [("fn", .str (f.kname.getD id)), ("name", .str name)], rf.calls.map (· ++ " " ++ name)⟩
+            ⟨res, .obj [("fn", .str (f.kname.getD id)), ("name", .str name)],
+              (match rf.lookup with | some k => ["LOOKUP " ++ k] | none => []) ++ rf.calls.map (· ++ " " ++ name)⟩
 
 def ofRes : StepRes → J
   | .ok v => .obj [("c", .str "ok"), ("v", ofJVal v)]
